@@ -10,6 +10,10 @@ import (
 func RunHistory(e *Engine, g *Gen, n int, fullEvery int) {
 	for i := 0; i < n; i++ {
 		tx := g.Next()
+		if e.Rc.Rand.Intn(40) == 0 && len(g.queue) == 0 {
+			// a gas-estimation style dry run of some state-changing request before the real traffic continues
+			e.Simulate(g.RollbackProbeFirstOnly())
+		}
 		rep := e.Exec(tx)
 		g.Learn(tx, rep)
 		if fullEvery > 0 && (i+1)%fullEvery == 0 {
